@@ -229,6 +229,76 @@ def record_long_text(chunk):
     return out
 
 
+BIG_FLOATS = [1e15, 2.5e15, 9.99e15, 9999999999999998.0, 1e16, 1e14, 123456789012345.0, -1e15, -7.5e15, 1e21, 1.5e-7, 1e-5, 0.0001, 123456789012345678.0]
+
+
+def big_float_events():
+    """numbers as doubles around the magnitudes where their text form changes its shape (1E+15, 1E+16, 1E-4, 1E+21) under & and the
+    comparisons: a value or an error value, never an exception (the specification leaves the text form of such numbers open)"""
+    return [{'x': x, 'op': op, 'side': side, 'other': other} for x in BIG_FLOATS for op in ('&', '=', '<', '>=') for side in (0, 1)
+            for other in ('x', 3, True)]
+
+
+def record_big_float(chunk):
+    L = xl.lib()
+    out = []
+    for e in chunk:
+        ops = [S.ref(1, 1), S.ref(1, 2)] if e['side'] == 0 else [S.ref(1, 2), S.ref(1, 1)]
+        ast = S.bin_(e['op'], ops[0], ops[1])
+        d = {'Sheet1!A1': e['x'], 'Sheet1!A2': e['other'], 'Sheet1!B5': S.formula(ast)}
+        try:
+            res = xl.to_abs(L.Evaluator(L.ModelCompiler().read_and_parse_dict(d)).evaluate('Sheet1!B5'))
+        except BaseException as ex:      # noqa
+            if isinstance(ex, (KeyboardInterrupt, SystemExit)):
+                raise
+            res = {'t': 'exc', 'cls': type(ex).__name__}
+        out.append({'ast': ast, 'sheet': 'Sheet1', 'names': [], 'res': res, 'addr': 'Sheet1!B5', 'text': S.formula(ast) + f" with A1 = {e['x']!r}, A2 = {e['other']!r}",
+                    'cells': [{'sheet': 'Sheet1', 'col': 1, 'row': 1, 'v': xl.to_abs(e['x'])}, {'sheet': 'Sheet1', 'col': 1, 'row': 2, 'v': xl.to_abs(e['other'])}]})
+    return out
+
+
+def error_history_events():
+    """a range with a formula member that turns from a value into an error value, into another error value and back while the
+    other members keep their values: every evaluation of the consumers of the range shows the member's CURRENT outcome"""
+    evs = []
+    for f in ('SUM', 'MAX', 'COUNTA', 'CONCAT'):
+        for vals in ((2, 0, 'x', 2), (0, 2, 0), (2, 'x', 0, 'x'), ('x', 0, 2)):
+            for via in ('direct', 'dependant'):
+                evs.append({'f': f, 'vals': vals, 'via': via})
+    return evs
+
+
+def record_error_history(chunk):
+    L = xl.lib()
+    out = []
+    for e in chunk:
+        member = S.bin_('/', S.num('10'), S.ref(1, 1))                 # B2 = 10/A1
+        consumer = S.call(e['f'], [S.rng(2, 1, 2, 3)])                 # C1 = F(B1:B3)
+        dep = S.bin_('&', S.ref(3, 1), S.strlit('!'))                  # D1 = C1&"!"
+        d = {'Sheet1!A1': e['vals'][0], 'Sheet1!B1': 5, 'Sheet1!B2': S.formula(member), 'Sheet1!B3': 7, 'Sheet1!C1': S.formula(consumer), 'Sheet1!D1': S.formula(dep)}
+        probe, past = ('Sheet1!C1', consumer) if e['via'] == 'direct' else ('Sheet1!D1', dep)
+        try:
+            model = L.ModelCompiler().read_and_parse_dict(d)
+            ev = L.Evaluator(model)
+        except BaseException as ex:      # noqa
+            raise xl.MachineryError(f'error-history workbook does not build: {ex!r}')
+        for step, v in enumerate(e['vals']):
+            if step:
+                (ev if step % 2 else model).set_cell_value('Sheet1!A1', v)
+            try:
+                res = xl.to_abs(ev.evaluate(probe))
+            except BaseException as ex:      # noqa
+                if isinstance(ex, (KeyboardInterrupt, SystemExit)):
+                    raise
+                res = {'t': 'exc', 'cls': type(ex).__name__}
+            cells = [{'sheet': 'Sheet1', 'col': 1, 'row': 1, 'v': xl.to_abs(v)}, {'sheet': 'Sheet1', 'col': 2, 'row': 1, 'v': xl.to_abs(5)},
+                     {'sheet': 'Sheet1', 'col': 2, 'row': 2, 'ast': member}, {'sheet': 'Sheet1', 'col': 2, 'row': 3, 'v': xl.to_abs(7)},
+                     {'sheet': 'Sheet1', 'col': 3, 'row': 1, 'ast': consumer}]
+            out.append({'ast': past, 'sheet': 'Sheet1', 'names': [], 'res': res, 'addr': probe, 'cells': cells,
+                        'text': f"{S.formula(past)} after A1 := {list(e['vals'][:step + 1])!r} (B2 = 10/A1, C1 = {S.formula(consumer)})"})
+    return out
+
+
 ZONE_TEXTS = ['2020-04-01 00:00:00-2', '2020-01-01T00:00Z', '10:00+01:00', '12:00 UTC', '2020-04-01 00:00:00+00:00', '1 Jan 2020 10:00 GMT', '2020-04-01 EST']
 
 
@@ -379,6 +449,15 @@ def run(run):
     zv = evalrec.validate(run, zt, name='zonetext', kind='zone-text')
     run.evaluations += len(zt)
     run.notes['zone_text_events'] = dict(zv)
+    bf = [e for part in pool.pmap(record_big_float, big_float_events(), nchunks=8) for e in part]
+    bv = evalrec.validate(run, bf, name='bigfloat', kind='big-float')
+    eh = [e for part in pool.pmap(record_error_history, error_history_events(), nchunks=8) for e in part]
+    hv = evalrec.validate(run, eh, name='errhist', kind='error-history')
+    run.evaluations += len(bf) + len(eh)
+    run.notes['big_float_events'] = dict(bv)
+    run.notes['error_history_events'] = dict(hv)
+    if hv.get('ok', 0) < len(eh) // 2:
+        raise xl.MachineryError(f'error-history events: too few judged ({dict(hv)})')
     events = driver(run.seed, 3000 if run.tier == 'quick' else 40000)
     recorded = [e for part in pool.pmap(record, events) for e in part]
     run.evaluations += len(recorded)
